@@ -274,6 +274,17 @@ func (e *Engine) solveAll(obls []*Obligation, axiomsFor func(o *Obligation) []ax
 			}
 			first := opt
 			first.timeout = short
+			if o.Kind == "cover" {
+				// vacuity probe: one short attempt; anything but unsat is fine
+				first.all = false
+				e.race(o, path, first)
+				<-sem
+				if o.Result != "unsat" {
+					os.Remove(path)
+					o.SMTPath = ""
+				}
+				return
+			}
 			e.race(o, path, first)
 			total := o.Seconds
 			if o.Result != "unsat" && o.Result != "disagree" && !opt.noSlice {
